@@ -124,7 +124,7 @@ def quick_family() -> List[Skeleton]:
     add("one mnemonic", [E(nm.m())], "seq")
     add("mnemonic + 1 operand", [E(nm.m(), [E(nm.o())])], "seq")
     add("three items", [E(nm.m(), [E(nm.o()), E(nm.o()), E(nm.o())]), E(nm.m()), E(nm.m(), [E(nm.o())])], "seq")
-    add("int operand", [E(nm.m(), [E(7), E(nm.o())])], "seq")
+    add("int operand", [E(nm.m(), [E(0), E(nm.o()), E(1)])], "seq")
     add("hex-h operand", [E(nm.m(), [E("10h"), E(nm.o())])], "seq", "hex")
     add("high-byte register operand", [E(nm.m(), [E("ah"), E("%bh")])], "seq")
     # --- times on leaves, both spellings (C02)
